@@ -30,6 +30,7 @@ mod mon_c15;
 mod mon_c16;
 mod mon_c17;
 mod mon_c18;
+mod mon_c19;
 mod mon_c16_core;
 mod pool;
 mod ref_dfa;
@@ -171,6 +172,7 @@ fn main() {
         "C16" => mon_c16::run(&mut ctx),
         "C17" => mon_c17::run(&mut ctx),
         "C18" => mon_c18::run(&mut ctx),
+        "C19" => mon_c19::run(&mut ctx),
         _ => {
             eprintln!("unknown property {prop}");
             std::process::exit(2);
